@@ -826,3 +826,22 @@ Check SrcTie3RepairLoop.convert_to_archive_sim.
 Theorem C14_tie_convert_to_archive_sim : ltac:(let t := type of SrcTie3RepairLoop.convert_to_archive_sim in exact t).
 Proof. exact SrcTie3RepairLoop.convert_to_archive_sim. Qed.
 Print Assumptions C14_tie_convert_to_archive_sim.
+
+(* ---------- Tie A, level 1: compress.rs translated (work package compT, gen/Src3c.v) ---------- *)
+(* error handling of the translated code: the WriterWithCount latch (first non-Interrupted kind), check_no_error, the fail-safe reader's error arms *)
+From MLA Require SrcTie3CompW SrcTie3CompFs.
+Theorem C14_tie_wwc_write_src : ltac:(let t := type of SrcTie3CompW.wwc_write_src in exact t).
+Proof. exact SrcTie3CompW.wwc_write_src. Qed.
+Print Assumptions C14_tie_wwc_write_src.
+Theorem C14_tie_wwc_latch_facts : ltac:(let t := type of SrcTie3CompW.wwc_latch_facts in exact t).
+Proof. exact SrcTie3CompW.wwc_latch_facts. Qed.
+Print Assumptions C14_tie_wwc_latch_facts.
+Theorem C14_tie_wwc_check_no_error_src : ltac:(let t := type of SrcTie3CompW.wwc_check_no_error_src in exact t).
+Proof. exact SrcTie3CompW.wwc_check_no_error_src. Qed.
+Print Assumptions C14_tie_wwc_check_no_error_src.
+Theorem C14_tie_fs_pass_sim : ltac:(let t := type of SrcTie3CompFs.fs_pass_sim in exact t).
+Proof. exact SrcTie3CompFs.fs_pass_sim. Qed.
+Print Assumptions C14_tie_fs_pass_sim.
+Theorem C14_tie_fs_comp_read_sim : ltac:(let t := type of SrcTie3CompFs.fs_comp_read_sim in exact t).
+Proof. exact SrcTie3CompFs.fs_comp_read_sim. Qed.
+Print Assumptions C14_tie_fs_comp_read_sim.
